@@ -8,6 +8,7 @@ import (
 	"os"
 	"sort"
 	"strings"
+	"sync"
 
 	"golang.org/x/tools/go/packages"
 	"golang.org/x/tools/go/ssa"
@@ -18,16 +19,19 @@ const modPath = "github.com/versity/versitygw"
 
 // Program is the resolved target program for one build configuration.
 type Program struct {
-	Dir     string
-	Config  string // GOOS/GOARCH
-	Fset    *token.FileSet
-	Pkgs    []*packages.Package // module packages only
-	ByPath  map[string]*packages.Package
-	SSA     *ssa.Program
-	SSAPkg  map[string]*ssa.Package // by short path ("auth", "backend/posix")
-	NFuncs  int
-	Overlay map[string][]byte
-	fnIndex map[string]*ssa.Function
+	Inlined      int                    // call sites normalised by inline.go
+	Absorbed     map[*ssa.Function]bool // helpers that now exist only as inlined copies: not analysed on their own
+	InlinedCalls []inlinedCall
+	Dir          string
+	Config       string // GOOS/GOARCH
+	Fset         *token.FileSet
+	Pkgs         []*packages.Package // module packages only
+	ByPath       map[string]*packages.Package
+	SSA          *ssa.Program
+	SSAPkg       map[string]*ssa.Package // by short path ("auth", "backend/posix")
+	NFuncs       int
+	Overlay      map[string][]byte
+	fnIndex      map[string]*ssa.Function
 }
 
 // brokenError is a failure of the machinery (not a verdict): exit 2.
@@ -121,7 +125,21 @@ func LoadProgram(dir string, overlay map[string][]byte, goos, goarch string) *Pr
 			p.fnIndex[fnName(f)] = f
 		}
 	}
+	p.Inlined, p.Absorbed = inlineAll(p)
+	programs.Store(prog, p)
 	return p
+}
+
+var programs sync.Map // *ssa.Program -> *Program
+
+func programOf(f *ssa.Function) *Program {
+	if f == nil || f.Prog == nil {
+		return nil
+	}
+	if v, ok := programs.Load(f.Prog); ok {
+		return v.(*Program)
+	}
+	return nil
 }
 
 func short(path string) string {
@@ -212,9 +230,23 @@ func (p *Program) FuncsIn(pkgs ...string) []*ssa.Function {
 		if sp == nil {
 			broken("anchor package %q not loaded in %s", s, p.Config)
 		}
-		out = append(out, pkgFuncs(p.SSA, sp)...)
+		for _, f := range pkgFuncs(p.SSA, sp) {
+			if p.absorbed(f) {
+				continue
+			}
+			out = append(out, f)
+		}
 	}
 	return out
+}
+
+func (p *Program) absorbed(f *ssa.Function) bool {
+	for g := f; g != nil; g = g.Parent() {
+		if p.Absorbed[g] {
+			return true
+		}
+	}
+	return false
 }
 
 // Methods of a named type (both receivers), sorted by name.
@@ -223,7 +255,7 @@ func (p *Program) Methods(pkg, typ string) []*ssa.Function {
 	pre1 := "(" + pkg + "." + typ + ")."
 	pre2 := "(*" + pkg + "." + typ + ")."
 	for n, f := range p.fnIndex {
-		if f.Parent() == nil && (strings.HasPrefix(n, pre1) || strings.HasPrefix(n, pre2)) {
+		if f.Parent() == nil && !p.absorbed(f) && (strings.HasPrefix(n, pre1) || strings.HasPrefix(n, pre2)) {
 			out = append(out, f)
 		}
 	}
